@@ -42,6 +42,8 @@ type immState struct {
 	Bytes [2][]byte
 	T     [2]cty.Type
 	P     cty.PathSet
+	// PA: paths; PA[0] is a parent from which children are derived
+	PA [3]cty.Path
 	// Conv: conversions looked up once and retained (closures the library returned)
 	Conv [2]convert.Conversion
 	// G: Go data that was passed to a constructor and is still held by the
@@ -105,6 +107,7 @@ func newImmState1() *immState {
 	st.T[0] = cty.Object(map[string]cty.Type{"a": cty.String, "b": cty.Tuple([]cty.Type{cty.Number, cty.Bool})})
 	st.T[1] = cty.ObjectWithOptionalAttrs(map[string]cty.Type{"a": cty.List(cty.String), "b": cty.Number}, []string{"b"})
 	st.P = cty.NewPathSet(cty.GetAttrPath("a").IndexInt(0))
+	st.PA[0] = cty.GetAttrPath("a").IndexInt(0).GetAttr("x")
 	st.Conv[0] = convert.GetConversionUnsafe(cty.Tuple([]cty.Type{cty.String, cty.Number}), cty.Tuple([]cty.Type{cty.String, cty.String}))
 	st.Conv[1] = convert.GetConversionUnsafe(cty.Map(cty.String), cty.Object(map[string]cty.Type{"k1": cty.String, "k2": cty.String}))
 	return st
@@ -137,6 +140,10 @@ func (st *immState) roots() (names []string, objs []interface{}) {
 	}
 	names = append(names, "P")
 	objs = append(objs, st.P)
+	for i := range st.PA {
+		names = append(names, fmt.Sprintf("PA%d", i))
+		objs = append(objs, st.PA[i])
+	}
 	// Go data the caller handed to the library and still holds: the library may read it during
 	// the call but must leave it as it was
 	names = append(names, "G")
@@ -412,16 +419,53 @@ func c20Ops() []immOp {
 			return cty.StringVal(pathStr(p1) + " " + pathStr(p2) + " " + pathStr(p3) + " " + pathStr(base))
 		})
 	})
-	add("V4=slice(tuple,0,2) then concat type with an unknown first tuple", "", true, func(st *immState) (cty.Value, bool) {
+	add("V4=slice(V1.b,0,1) then concat with an unknown first tuple of that type", "", true, func(st *immState) (cty.Value, bool) {
 		return guard(func() cty.Value {
-			tup := cty.TupleVal([]cty.Value{cty.StringVal("a"), cty.NumberIntVal(1), cty.True})
-			sl, err := stdlib.Slice(tup, cty.Zero, cty.NumberIntVal(2))
+			u, _ := st.V[1].Unmark()
+			tup := u.GetAttr("b") // tuple("y", 3), part of a pool value
+			sl, err := stdlib.Slice(tup, cty.Zero, cty.NumberIntVal(1))
 			must(err)
-			cc, err := stdlib.Concat(cty.UnknownVal(sl.Type()), cty.TupleVal([]cty.Value{cty.False}))
+			// the type a type checker computes for the slice (it may share storage with V1.b's type)
+			headTy, err := stdlib.SliceFunc.ReturnTypeForValues([]cty.Value{tup, cty.Zero, cty.NumberIntVal(1)})
 			must(err)
-			cc2, err := stdlib.Concat(cty.UnknownVal(sl.Type()), cty.TupleVal([]cty.Value{cty.StringVal("z"), cty.Zero}))
+			cc, err := stdlib.Concat(cty.UnknownVal(headTy), cty.TupleVal([]cty.Value{cty.False}))
 			must(err)
-			return cty.TupleVal([]cty.Value{sl, cc, cc2, tup})
+			cc2, err := stdlib.Concat(cty.UnknownVal(headTy), cty.TupleVal([]cty.Value{cty.StringVal("z"), cty.Zero}))
+			must(err)
+			cc3, err := stdlib.Concat(sl, cty.TupleVal([]cty.Value{cty.ListValEmpty(cty.Bool)}))
+			must(err)
+			return cty.TupleVal([]cty.Value{sl, cc, cc2, cc3})
+		})
+	})
+	// --- paths as live objects: deriving a second child from a parent leaves the first alone
+	add("PA1=PA0.GetAttr(b)", "PA1", false, func(st *immState) (cty.Value, bool) {
+		return guard(func() cty.Value { st.PA[1] = st.PA[0].GetAttr("b"); return cty.NilVal })
+	})
+	add("PA2=PA0.GetAttr(c)", "PA2", false, func(st *immState) (cty.Value, bool) {
+		return guard(func() cty.Value { st.PA[2] = st.PA[0].GetAttr("c"); return cty.NilVal })
+	})
+	add("PA1=PA0.IndexInt(7)", "PA1", false, func(st *immState) (cty.Value, bool) {
+		return guard(func() cty.Value { st.PA[1] = st.PA[0].IndexInt(7); return cty.NilVal })
+	})
+	add("PA2=PA0.IndexString(k)", "PA2", false, func(st *immState) (cty.Value, bool) {
+		return guard(func() cty.Value { st.PA[2] = st.PA[0].IndexString("k"); return cty.NilVal })
+	})
+	add("PA0=PA1.Index(V5) / PA1 nil-safe", "PA0", false, func(st *immState) (cty.Value, bool) {
+		return guard(func() cty.Value {
+			if st.PA[1] == nil {
+				panic("no derived path yet")
+			}
+			st.PA[0] = st.PA[1].Index(cty.StringVal("q"))
+			return cty.NilVal
+		})
+	})
+	add("P.Add(PA1) then P.Has", "P", false, func(st *immState) (cty.Value, bool) {
+		return guard(func() cty.Value {
+			if st.PA[1] == nil {
+				panic("no derived path yet")
+			}
+			st.P.Add(st.PA[1].Copy())
+			return cty.BoolVal(st.P.Has(st.PA[1]))
 		})
 	})
 	// --- accessor, then mutate the returned Go data
@@ -865,6 +909,9 @@ func (in *immInst) observe() map[string]string {
 	}
 	sort.Strings(ps)
 	out["P"] = strings.Join(ps, ",")
+	for i, p := range st.PA {
+		out[fmt.Sprintf("PA%d", i)] = pathStr(p)
+	}
 	return out
 }
 
